@@ -287,7 +287,7 @@ ERASE_SETUP = ('vf_LST = self; iter->m_current = &vf_mid; g_victim = &vf_mid; vf
                'self->m_zombie_head.v = vf_nondet_bool() ? (void *)&vf_env_rec : (void *)0; self->m_write_mutex.guards = 0;')
 ERASE_FRESH = FRESH.replace('g_victim == 0 && ', '')
 FN[r'rcu_list::erase'] = dict(
-    props='C05 C12', setup=ERASE_SETUP,
+    props='C05 C12 C13', setup=ERASE_SETUP,
     requires=['vf_LST == self && iter->m_current == &vf_mid && g_victim == &vf_mid && ' + ERASE_FRESH + ' && !self->m_write_mutex.excl_me && self->m_write_mutex.shared_me == 0 && '
               'self->m_write_mutex.guards == 0 && vf_held == 0 && !vf_exc && (vf_mid.back.v == 0 || vf_mid.back.v == (void *)&vf_hn) && (vf_mid.next.v == 0 || vf_mid.next.v == (void *)&vf_tn) && ' + R3],
     ensures=[('C05 C12', ONE_CS, 'erase - including the test-and-set of the deleted flag that makes a second erase a no-op - is one critical section of m_write_mutex, released on every exit'),
@@ -301,7 +301,8 @@ FN[r'rcu_list::erase'] = dict(
              ('C05 C12', '__CPROVER_old(vf_mid.deleted) ==> (g_chain_stores == 0 && g_rec_allocs == 0 && g_rec_pushes == 0 && self->m_head.v == __CPROVER_old(self->m_head.v) && self->m_tail.v == __CPROVER_old(self->m_tail.v))',
               'a second erase of the same node is a no-op'),
              ('C12', '!vf_exc ==> vf_ret->m_current == __CPROVER_old(vf_mid.next.v)', 'returns an iterator to the successor'),
-             ('C05', 'g_node_frees == 0 && g_node_destroys == 0 && g_rec_frees == 0', 'erase itself never destroys or frees anything')],
+             ('C05', 'g_node_frees == 0 && g_node_destroys == 0 && g_rec_frees == 0', 'erase itself never destroys or frees anything'),
+             ('C13', '!vf_exc ==> (g_rec_allocs == g_rec_pushes && g_node_allocs == 0)', 'every bookkeeping record erase allocates is handed to the log (none is dropped and leaked)')],
     assigns=['*vf_ret, *self, vf_hn, vf_tn, vf_mid, ' + RG],
     loops={0: dict(
         invariant=[('C05', 'newZombie == g_newrec && g_newrec != 0 && g_newrec->zombie_node == &vf_mid && g_newrec->owner.v == 0 && !g_rec_published && g_rec_pushes == 0 && g_unlinked && g_chain_stores == 1 && '
